@@ -19,12 +19,22 @@ def cases(draw, ml):
     if draw(st.integers(0, 4)) == 0:
         # stratum: the inner structure is a plain tuple of arity 1-2 (its varied shape is a same-arity namedtuple)
         i = ['tuple', [draw(gen.tree_descs(2, leaf=LEAF, max_depth=2)) for _ in range(draw(st.integers(1, 2)))]]
+    force_ns = None
+    if draw(st.integers(0, 5)) == 0:
+        # stratum: only the *inner* structure holds a node registered in the namespace (the outer tree is made of
+        # built-in containers, so its treespec records no namespace): every internal flatten needs the caller's
+        o = draw(gen.tree_descs(ml, leaf=LEAF, kinds=('tuple', 'list', 'dict', 'od', 'dd', 'deque', 'nt')))
+        i = [draw(st.sampled_from(['cn', 'dc'])), draw(gen.tree_descs(2, leaf=LEAF, max_depth=2)), draw(LEAF), 'm']
+        force_ns = U.NS
     nrest = draw(st.sampled_from([0, 0, 1, 2]))
     rests = []
     sub = gen.tree_descs(3, max_depth=2, min_leaves=2)
     for _ in range(nrest):
         rests.append(gen.substitute_leaves(draw, o, sub, none_too=draw(st.booleans())) if draw(st.booleans()) else o)
-    return {'o': o, 'i': i, 'rests': rests, 'cfg': draw(gen.configs(predicates=['none', 'never', 'marker3', 'marker3'])),
+    cfg = draw(gen.configs(predicates=['none', 'never', 'marker3', 'marker3']))
+    if force_ns is not None:
+        cfg = dict(cfg, ns=force_ns)
+    return {'o': o, 'i': i, 'rests': rests, 'cfg': cfg,
             'nones': draw(st.booleans()),
             'vary': draw(st.sampled_from([None, None, None, 'second', 'last'])),
             'given_inner': draw(st.booleans()),
@@ -69,6 +79,8 @@ class C10(runner.Prop):
             tkw = {'is_leaf': kw['is_leaf']} if 'is_leaf' in kw else {}
             if cfg['pred'] == 'marker3':
                 ctx.label('marker_leaves')
+            if I.namespace and not O.namespace:
+                ctx.label('namespace_only_in_inner')
             if M == 0 or N == 0:
                 ctx.label('degenerate_leafless')
                 try:
